@@ -728,7 +728,7 @@ class StrainEnergy:
             self._unrotated_cPrec_4th = value
         else:
             raise ValueError("Precipitate tensor must be 2nd rank (6x6) or 4th rank (3x3x3x3)")
-        self.update()
+        self._updateIfElasticTensorSet()
 
     def setShape(self, shape):
         # TODO: this creates an instance of the function, can we not do that?
